@@ -614,6 +614,7 @@ example : AbsOK (fun n => n == 26) (fun v => .ok (if v == 26 then 26 else -1, de
   · have : ¬ ((n : Int) = 26) := by omega
     simp [h, this]
 
+when_kernel Gzx.Gen.K11c.getEncodedData in
 /-- "A", then P/S "." (upper 2, upper 0 = CTRL_PS, punct 19) — and the reserved FLG(7) -/
 example : Gen.K11c.getEncodedData 40 0 (fun v => .ok (if v == 26 then 26 else -1, decide (v ≥ 900))) (fun t => t)
     (fun _ r d => .ok (r ++ d, false)) (bitsI ([false, false, false, true, false] ++ [false, false, false, false, false]
